@@ -105,3 +105,48 @@ impl<'a> Future for JoinFut<'a> {
         }
     }
 }
+
+/// Drives `inner` with polls that alternate between a fresh thread (first) and the polling thread, the
+/// way a work-stealing runtime moves a task between workers.
+pub struct Alternating<'a, F> {
+    inner: Pin<Box<F>>,
+    polls: usize,
+    fail: &'a std::sync::Mutex<Option<vcore::Fail>>,
+}
+
+pub fn alternating<'a, F: Future<Output = ()> + Send>(inner: F, fail: &'a std::sync::Mutex<Option<vcore::Fail>>) -> Alternating<'a, F> {
+    Alternating { inner: Box::pin(inner), polls: 0, fail }
+}
+
+impl<'a, F: Future<Output = ()> + Send> Future for Alternating<'a, F> {
+    type Output = ();
+    fn poll(mut self: Pin<&mut Self>, cx: &mut Context<'_>) -> Poll<()> {
+        let this = &mut *self;
+        let elsewhere = this.polls % 2 == 0;
+        this.polls += 1;
+        if !elsewhere {
+            return this.inner.as_mut().poll(cx);
+        }
+        let inner = &mut this.inner;
+        let r = std::thread::scope(|s| {
+            s.spawn(|| vcore::catch(|| inner.as_mut().poll(&mut Context::from_waker(Waker::noop())).is_ready())).join()
+        });
+        let ready = match r {
+            Ok(Ok(ready)) => ready,
+            Ok(Err(f)) => {
+                this.fail.lock().unwrap().get_or_insert(f);
+                true
+            }
+            Err(_) => {
+                this.fail.lock().unwrap().get_or_insert(vcore::Fail::new("panic@poll-thread", "poll thread died"));
+                true
+            }
+        };
+        if ready {
+            Poll::Ready(())
+        } else {
+            cx.waker().wake_by_ref();
+            Poll::Pending
+        }
+    }
+}
